@@ -516,6 +516,15 @@ def resolve(prog, overrides=None, executable=True, anon=False):
         for s in walk([m["body"]]):
             if s["k"] != "gate":
                 continue
+            base_ = GS.base_name(s["name"])
+            if base_ in GS.SIGS and len(GS.SIGS[base_]) == len(s["args"]):
+                for kind_, a in zip(GS.SIGS[base_], s["args"]):
+                    if a[0] == "id" and a[1] not in ps and a[1] in lets:
+                        x_ = lets[a[1]]
+                        if kind_ == "q" or (kind_ == "i" and not (_is_intlike(x_) or (isinstance(x_, float) and x_ == int(x_)))):
+                            raise Invalid("let of the wrong kind as gate argument in a definition")
+                    if a[0] == "num" and kind_ == "i" and not (_is_intlike(a[1]) or (isinstance(a[1], float) and a[1] == int(a[1]))):
+                        raise Invalid("non-integer literal for an integer parameter")
             for a in s["args"]:
                 if a[0] == "item" and (a[1] in ps or a[2] in ps):
                     R.features.add("param_indexing")
@@ -665,6 +674,23 @@ def check_executable(R):
         if k == "loop":
             return contains_pm(node[2])
         return False
+
+    # the sloppy gate scales the norm; keep the accumulated error far below the library's
+    # own failure threshold (2e-6)
+    def sloppy(node):
+        k = node[0]
+        if k == "g":
+            return 1 if GS.base_name(node[1]) == "Hs" and not GS.is_idle(node[1]) else 0
+        if k in ("seq", "par"):
+            return sum(sloppy(x) for x in node[1])
+        if k == "loop":
+            return node[1] * sloppy(node[2])
+        return 0
+
+    if sloppy(R.tree) > 30:
+        raise Invalid("too many applications of the sloppy gate")
+    if sloppy(R.tree):
+        R.features.add("sloppy_gate")
 
     end_open = flat(R.tree, False)
     if end_open:
